@@ -371,27 +371,53 @@ func runAll(a *hlib.Args, e *hlib.Emitter, cases []rl.Case) error {
 	spent := map[string]time.Duration{}
 	var mu sync.Mutex
 	var wg sync.WaitGroup
-	idx := make(chan int, len(cases))
-	for i := range cases {
-		idx <- i
-	}
-	close(idx)
-	workers := 8
-	for wkr := 0; wkr < workers; wkr++ {
-		wg.Add(1)
-		go func(wkr int) {
-			defer wg.Done()
-			for i := range idx {
-				c := cases[i]
-				c.Derive()
-				t1 := time.Now()
-				c.Steps, c.Resps, c.RelErr, c.Err = rl.RunSched(pool, filepath.Join(base, fmt.Sprintf("w%d-%d", wkr, i)), &c, nil)
-				mu.Lock()
-				spent[c.Class+":"+c.Cfg.Backend] += time.Since(t1)
-				mu.Unlock()
-				out[i] = c
+	// RocksDB generations are compiled up front, concurrently with the cdb cases (their
+	// compile time is dominated by fsync latency and varies a lot)
+	seen := map[string]bool{}
+	for _, c := range cases {
+		if c.Cfg.Backend == "cdb" {
+			continue
+		}
+		for _, d := range c.Disk {
+			k := fmt.Sprintf("%s/%d/%v/%v", c.Cfg.Backend, d.File.Stamp, d.File.Key, d.File.OK)
+			if d.File.OK && !seen[k] {
+				seen[k] = true
+				go pool.Template(c.Cfg.Backend, d.File)
 			}
-		}(wkr)
+		}
+	}
+	// cases whose reloads time out leave a goroutine of db.Reload behind; the harness waits
+	// for it by watching the goroutine dump, which only works while no other reload runs:
+	// they form a second, sequential phase
+	for phase := 0; phase < 2; phase++ {
+		idx := make(chan int, len(cases))
+		for i := range cases {
+			if (phase == 1) == cases[i].Cfg.Timeout0 {
+				idx <- i
+			}
+		}
+		close(idx)
+		workers := 8
+		if phase == 1 {
+			workers = 1
+		}
+		for wkr := 0; wkr < workers; wkr++ {
+			wg.Add(1)
+			go func(wkr int) {
+				defer wg.Done()
+				for i := range idx {
+					c := cases[i]
+					c.Derive()
+					t1 := time.Now()
+					c.Steps, c.Resps, c.RelErr, c.Err = rl.RunSched(pool, filepath.Join(base, fmt.Sprintf("w%d-%d", wkr, i)), &c, nil)
+					mu.Lock()
+					spent[c.Class+":"+c.Cfg.Backend] += time.Since(t1)
+					mu.Unlock()
+					out[i] = c
+				}
+			}(wkr)
+		}
+		wg.Wait()
 	}
 	wg.Wait()
 	if os.Getenv("C05_PROFILE") != "" {
